@@ -319,6 +319,9 @@ func HasPattern(env envs.Environment, text *types.XText, pattern *types.XText) t
 	if err != nil {
 		return types.NewXErrorf("must be called with a valid regular expression")
 	}
+	if xerr := functions.CheckRegexCost("(?mi)"+strings.TrimSpace(pattern.Native()), text.Native()); xerr != nil {
+		return xerr
+	}
 
 	matches := regex.FindStringSubmatch(text.Native())
 	if matches != nil {
